@@ -1,11 +1,14 @@
 #!/usr/bin/env python3
 # tools/mk_quiet_prompts.py: worktrees /tmp/quiet/Cxx (contract files hidden) and prompts for sub-agents that
 # produce BEHAVIOUR-PRESERVING changes (the checks must stay quiet on them).
-import json, os, subprocess, glob
+import json, os, subprocess, glob, sys
+rnd = sys.argv[1] if len(sys.argv) > 1 else '1'
+qa, qb = {'1': ('q1', 'q2'), '2': ('q3', 'q4')}[rnd]
+extra = {'1': '', '2': ' For this round prefer the LARGER kinds of harmless change: extract a block of an anchored function into a new helper method (including blocks that assign struct fields, start goroutines or call other components) and call it from the same place; inline a small helper into its only caller; rename local variables, named results, parameters of function literals (callbacks) and receiver names; restructure loops (index loop <-> range loop, loop with break <-> loop with condition, early continue); split one function into two that are called in sequence; merge two adjacent if statements; move a declaration closer to its use; change an unused callback parameter to the blank identifier or back.'}[rnd]
 props = {json.loads(l)['id']: json.loads(l) for l in open('/verif/properties.jsonl')}
 head = '''You are helping to evaluate a verification tool for a Go library (Trendyol/go-dcp, a Couchbase DCP consumer library) by producing HARMLESS, behaviour-preserving source changes: the kind of edit a maintainer makes all the time and that must NOT be reported as a defect. You work ONLY inside scratch git worktrees under /tmp/quiet/ — never touch /repo or /verif, never read anything under /verif.
 
-For EACH of the properties below, produce TWO different changes to the library code that the property depends on (the anchors name the functions) such that the property STILL HOLDS and the observable behaviour of the library is unchanged for every input and schedule. Make them realistic and varied: e.g. rename a local variable, extract or inline a small helper, reorder two independent statements, replace a condition by a logically equivalent one (De Morgan, `!(a > b)` for `a <= b` on integers), turn an if/else chain into a switch or early returns, convert an index loop into an equivalent range loop (or back), hoist a loop-invariant expression, replace a literal by a named constant, add a log line or a comment, introduce a temporary. Each change must touch executable code of at least one anchored function (not only comments) and must keep every exported and unexported signature that other packages or the tests use. Do NOT change behaviour in any corner case (no changed bounds, no changed order of externally visible calls, no changed error values or log-level-dependent control flow). The library must still compile (`go build ./...`) and the existing unit tests must still pass.
+For EACH of the properties below, produce TWO different changes to the library code that the property depends on (the anchors name the functions) such that the property STILL HOLDS and the observable behaviour of the library is unchanged for every input and schedule. Make them realistic and varied: e.g. rename a local variable, extract or inline a small helper, reorder two independent statements, replace a condition by a logically equivalent one (De Morgan, `!(a > b)` for `a <= b` on integers), turn an if/else chain into a switch or early returns, convert an index loop into an equivalent range loop (or back), hoist a loop-invariant expression, replace a literal by a named constant, add a log line or a comment, introduce a temporary.{extra} Each change must touch executable code of at least one anchored function (not only comments) and must keep every exported and unexported signature that other packages or the tests use. Do NOT change behaviour in any corner case (no changed bounds, no changed order of externally visible calls, no changed error values or log-level-dependent control flow). The library must still compile (`go build ./...`) and the existing unit tests must still pass.
 
 Worktrees (one per property, each a checkout of the library at the same commit): {wts}. Output directories: {outs}.
 
@@ -14,11 +17,11 @@ Environment: no network. Before every go command: `export GOFLAGS=-mod=mod GOPRO
 Properties:
 '''
 tail = '''
-For each change write, in the property's output directory, a sub-directory q1/ and q2/ containing:
+For each change write, in the property's output directory, a sub-directory {qa}/ and {qb}/ containing:
  - patch.diff : `git diff` against the worktree's HEAD; it must apply with `git apply` to a clean checkout.
- - meta.json : {{"property": "Cxx", "what_changes": "...", "why_equivalent": "a short argument that behaviour is unchanged for all inputs", "files_changed": [...]}}
+ - meta.json : {{{{"property": "Cxx", "what_changes": "...", "why_equivalent": "a short argument that behaviour is unchanged for all inputs", "files_changed": [...]}}}}
 
-Verify yourself: with the patch applied `go build ./...` succeeds and `go test -vet=off -count=1 ./...` passes. Leave each worktree clean at the end (git checkout -- .). Do not commit anything.
+Verify yourself: with the patch applied `go build ./...` succeeds and `go test -vet=off -count=1 ./...` passes. Leave each worktree clean at the end (git checkout -- .). Do not commit anything and do NOT use `git stash` (the worktrees share one stash).
 
 Report back a short table: property, change, one-line description.'''
 ids = sorted(props)
@@ -35,10 +38,10 @@ for x in ids:
             os.remove(h)
     os.makedirs('/tmp/quiet/out-' + x, exist_ok=True)
 for i, b in enumerate(batches):
-    s = head.format(wts=', '.join('/tmp/quiet/' + x for x in b), outs=', '.join('/tmp/quiet/out-' + x for x in b))
+    s = head.format(wts=', '.join('/tmp/quiet/' + x for x in b), outs=', '.join('/tmp/quiet/out-' + x for x in b), extra=extra)
     for x in b:
         p = props[x]
         s += f"\n--- {x} ---\n{p['title']}. {p['statement']}\n(Anchors: {', '.join(m['where'] for m in p['anchors']['mechanism'])})\n"
-    s += tail
+    s += tail.format(qa=qa, qb=qb)
     open(f'/tmp/quiet/prompt{i}.txt', 'w').write(s)
 print(len(batches), 'prompts')
